@@ -13,9 +13,11 @@ Constructs are abstracted to what the invariant talks about: data / bounds / int
 *shapes*, the size of a domain axis, the axes named by a cell method, the coordinates and
 domain ancillaries named by a coordinate reference.
 
-Every function takes `pt : Bool`:  `pt = true`  = the code as it is at /repo HEAD (the five repairs
-fixes/C02-*.patch are applied there: commits 0a6b21e, 05dfd6b, fba0f94, 7ccd512, 7a00732),
-`pt = false` = the code before those five commits (kept for the counter-example theorems).
+Every function takes `pt : Bool`:  `pt = true`  = the code with the repairs fixes/C02-*.patch (five are
+commits 0a6b21e, 05dfd6b, fba0f94, 7ccd512, 7a00732; fixes/C02-insert-dimension-skips-topology-constructs.patch
+is the sixth that the model sees; the two others - names of the formatters, copies of a domain - do not change
+the modelled decisions: a copy of a domain refuses cell methods / field ancillaries like every view),
+`pt = false` = the code before these repairs (kept for the counter-example theorems).
 `step = stepP true`.
 -/
 namespace Cfdm.Constructs
@@ -632,6 +634,9 @@ def insCon (c : Con) (p : Nat) : Con :=
 def conPosition (position : Nat) (dataAxes0 cax : List Key) : Nat :=
   position - (dataAxes0.filter (fun a => !cax.contains a)).length
 
+/-- the construct types that the loop of `insert_dimension(constructs=True)` leaves as they are -/
+def skippedByInsert (t : CType) : Bool := t == .dim || t == .top || t == .con
+
 /-- one step of the loop over `f.constructs.filter_by_data()` in `Field.insert_dimension` -/
 def insOne (pt : Bool) (axis : Key) (position : Nat) (dataAxes0 : List Key) (s : St) (p : CType × Key) : Option St :=
   match s.cons.get p with
@@ -645,9 +650,11 @@ def insOne (pt : Bool) (axis : Key) (position : Nat) (dataAxes0 : List Key) (s :
       | none => none
       | some cax =>
         if cax.contains axis then some s else
-        -- at HEAD (7a00732): a dimension coordinate stays one-dimensional (before, it was made 2-d, after which
-        -- neither it nor the field can be copied)
-        if pt && p.1 == .dim then some s else
+        -- a dimension coordinate (7a00732), domain topology or cell connectivity
+        -- (fixes/C02-insert-dimension-skips-topology-constructs.patch) spans exactly one domain axis and is left
+        -- as it is.  Before: a dimension coordinate was made 2-d (after which neither it nor the field could be
+        -- copied); a topology construct was reshaped and its new axes were then always refused.
+        if pt && skippedByInsert p.1 then some s else
         if !modelled p.1 then none else
         if conPosition position dataAxes0 cax > d.length then none else
         if axesCheck s p.1 (insCon c (conPosition position dataAxes0 cax))
@@ -664,7 +671,7 @@ def insDamage (pt : Bool) (axis : Key) (position : Nat) (dataAxes0 : List Key) (
   | some c, some cax =>
     match c.data with
     | some d =>
-      if p.1.isArray && !cax.contains axis && !(pt && p.1 == .dim) &&
+      if p.1.isArray && !cax.contains axis && !(pt && skippedByInsert p.1) &&
           decide (conPosition position dataAxes0 cax ≤ d.length) then
         { s with cons := s.cons.set p (insCon c (conPosition position dataAxes0 cax)) }
       else s
@@ -706,8 +713,9 @@ def insertField (pt : Bool) (s : St) (a : Key) (position : Nat) : St × Bool :=
 
 /-- `Field.insert_dimension(axis, position, constructs, inplace)`; `axis = none` creates a new size-1
 domain axis.  With `constructs=True` AND `inplace=True` a failure inside the loop leaves what was done so far
-(see `transposeField`); for a domain topology / cell connectivity construct with data the step always fails
-AFTER the construct was reshaped (`insDamage`; open finding) -/
+(see `transposeField`).  Before fixes/C02-insert-dimension-skips-topology-constructs.patch (`pt = false`) the step
+for a domain topology / cell connectivity construct with data always failed AFTER the construct was reshaped
+(`insDamage`) -/
 def insertDimension (pt : Bool) (s : St) (axis : Option Key) (position : Nat) (constructs : Bool)
     (inplace : Bool) : St × Out :=
   if !copyGuard pt s inplace then (s, .rejected) else
